@@ -7,7 +7,7 @@ From WP Require Import Base.Prelude Base.Decimal Model.Cbor Model.Http Model.Url
 From WP Require Import Spec.Cbor Spec.Bundle.
 From WP Require Import Proofs.BaseLemmas Proofs.CborHead Proofs.CborMap Proofs.CborDecode Proofs.CborUtf8
   Proofs.Variants Proofs.BundleWriteBasics Proofs.BundleWriteSpec Proofs.BundleWriteSig
-  Proofs.BundleWriteForm Proofs.BundleWriteWF Proofs.BundleWriteCases Proofs.BundleRows
+  Proofs.BundleWriteForm Proofs.BundleWriteWF Proofs.BundleWriteCases Proofs.BundleRoundtripRows
   Proofs.BundleRoundtripResp Proofs.BundleRoundtripMeta Proofs.BundleRoundtripRead
   Proofs.BundleRoundtripSig Proofs.BundleRoundtrip Proofs.BundleRoundtripNorm.
 Open Scope N_scope.
@@ -132,14 +132,14 @@ Section Cycle.
       eapply Permutation_NoDup; [apply Permutation_map, Permutation_sym, isort_perm|exact ND]. }
     assert (U' : urls_utf8 (norm b)).
     { unfold urls_utf8. rewrite E1. apply Forall_map. apply Forall_forall. intros x Hx. cbn [xnorm bx_url].
-      unfold urls_utf8 in U. rewrite Forall_forall in U. apply U. apply (Permutation_in _ (isort_perm _ _)). exact Hx. }
+      unfold urls_utf8 in U. rewrite Forall_forall in U. apply U. apply (Permutation_in _ (isort_perm x_ltb (b_exchanges b))). exact Hx. }
     assert (E2 : b_exchanges (norm (norm b)) = b_exchanges (norm b)).
     { rewrite (norm_single (norm b) ND' U'), E1.
       assert (Es : isort x_ltb (map xnorm (isort x_ltb (b_exchanges b))) = map xnorm (isort x_ltb (b_exchanges b))).
       { rewrite <- (isort_map xnorm x_ltb). change (fun a c => x_ltb (xnorm a) (xnorm c)) with x_ltb.
         f_equal. apply (isort_sorted_id (fun a => text_item (bx_url a))). apply sorted_urls_strict. exact ND. }
       rewrite Es, map_map. apply map_ext_in. intros x Hx. apply xnorm_idem.
-      unfold xs_ok in X. rewrite Forall_forall in X. apply X. apply (Permutation_in _ (isort_perm _ _)). exact Hx. }
+      unfold xs_ok in X. rewrite Forall_forall in X. apply X. apply (Permutation_in _ (isort_perm x_ltb (b_exchanges b))). exact Hx. }
     unfold norm at 1. cbn [b_ver b_primary b_manifest b_sigs]. fold (b_exchanges (norm (norm b))) in *.
     unfold norm at 1 in E2. cbn [b_exchanges] in E2. cbn [b_ver] in E2. rewrite E2. reflexivity.
   Qed.
@@ -156,7 +156,7 @@ Section Cycle.
     rewrite H3, H4, H5, !andb_true_r. cbn [negb andb].
     fold (b_exchanges (norm b)). rewrite (norm_single b ND U).
     apply forallb_forall. intros y Hy. apply in_map_iff in Hy. destruct Hy as [x [E Hx]]. subst y.
-    apply (Permutation_in _ (isort_perm _ _)) in Hx. rewrite forallb_forall in H2. specialize (H2 x Hx).
+    apply (Permutation_in _ (isort_perm x_ltb (b_exchanges b))) in Hx. rewrite forallb_forall in H2. specialize (H2 x Hx).
     apply andb_true_iff in H2. destruct H2 as [Wx Ux]. rewrite (xnorm_writable x Wx). exact Ux.
   Qed.
 
@@ -168,7 +168,7 @@ Section Cycle.
     b_read x509_ok bs = Ok (norm b) /\ b_read x509_ok bs2 = Ok (norm b).
   Proof.
     intros W ND H1 L1 H2 L2. split; [apply bundle_roundtrip; assumption|].
-    rewrite <- (norm_idempotent_single b W ND) at 2.
+    replace (Ok (norm b)) with (Ok (norm (norm b))) by (rewrite (norm_idempotent_single b W ND); reflexivity).
     apply bundle_roundtrip; [apply writable_norm_single; assumption|exact H2|exact L2].
   Qed.
 
@@ -190,6 +190,7 @@ Section Cycle.
     intros W ND H1 L1 H2 L2. destruct (fixpoint_single b bs bs2 W ND H1 L1 H2 L2) as [R1 R2].
     assert (C2 : cycle (norm b) = Some (bs2, norm b)) by (unfold cycle; rewrite H2, R2; reflexivity).
     split; [unfold cycle; rewrite H1, R1; reflexivity|].
-    induction n as [|n IH]; cbn [Nat.iter]; [exact C2|]. rewrite IH. exact C2.
+    induction n as [|n IH]; [exact C2|].
+    change (Nat.iter (S n) ?f ?x) with (f (Nat.iter n f x)). rewrite IH. exact C2.
   Qed.
 End Cycle.
